@@ -293,6 +293,12 @@ func runEntries(ctx *RunCtx) error {
 		opt := e.Opt
 		opt.Known = known
 		opt.Tier = ctx.TierN()
+		if e.Replay == "" && os.Getenv("VERIF_NO_WITNESS") == "" {
+			opt.Witnesses = 2
+			if ctx.Tier == "thorough" {
+				opt.Witnesses = 6
+			}
+		}
 		if opt.TimeoutMs == 0 {
 			opt.TimeoutMs = 10000
 			if ctx.Tier == "thorough" {
@@ -313,6 +319,7 @@ func runEntries(ctx *RunCtx) error {
 			return fmt.Errorf("engine failure in %s: %s", e.Func, rep.EndMsgs["engine-fatal"])
 		}
 		handleReport(ctx, e, rep)
+		validateWitnesses(ctx, e, rep)
 	}
 	// vacuity
 	reached := map[string]bool{}
@@ -370,6 +377,100 @@ func handleReport(ctx *RunCtx, e Entry, rep *engine.Report) {
 		}
 		ctx.Replays++
 		ctx.Violations = append(ctx.Violations, vo)
+	}
+}
+
+// validateWitnesses replays concrete inputs of complete, violation-free symbolic paths against the
+// natively compiled code: every assertion the solver discharged must also hold natively.
+func validateWitnesses(ctx *RunCtx, e Entry, rep *engine.Report) {
+	if len(rep.Witnesses) == 0 {
+		return
+	}
+	dir := filepath.Join(VerifRoot, "replays", ctx.Check.ID, "witness-"+e.Func)
+	os.MkdirAll(dir, 0o755)
+	var files []string
+	for i, w := range rep.Witnesses {
+		b, _ := json.Marshal(map[string]interface{}{"model": w.Model, "decisions": w.Decisions, "tier": ctx.TierN()})
+		f := filepath.Join(dir, fmt.Sprintf("w%d.json", i))
+		os.WriteFile(f, b, 0o644)
+		files = append(files, f)
+	}
+	ov, err := overlayFor(ctx.Check, true)
+	if err != nil {
+		return
+	}
+	repl := map[string]string{}
+	var pkgDir, pkgName string
+	for _, hf := range ctx.Check.Harness {
+		full := "github.com/goose-lang/goose"
+		if hf.RepoDir != "." && hf.RepoDir != "" {
+			full += "/" + hf.RepoDir
+		}
+		if e.PkgPath == full {
+			pkgDir, pkgName = hf.RepoDir, hf.Pkg
+		}
+	}
+	i := 0
+	for path, content := range ov {
+		i++
+		local := filepath.Join(dir, fmt.Sprintf("f%d_%s", i, filepath.Base(path)))
+		os.WriteFile(local, content, 0o644)
+		repl[path] = local
+	}
+	var list strings.Builder
+	for _, f := range files {
+		fmt.Fprintf(&list, "\t\t%q,\n", f)
+	}
+	test := fmt.Sprintf(`package %s
+
+import (
+	"fmt"
+	"testing"
+)
+
+func TestVerifWitness(t *testing.T) {
+	defer VerifCleanup()
+	for k, f := range []string{
+%s	} {
+		func() {
+			defer func() {
+				if r := recover(); r != nil {
+					if VerifSkipped(r) {
+						fmt.Println("VERIF-WITNESS-SKIP", k)
+						return
+					}
+					fmt.Println("VERIF-WITNESS-FAIL", k, "panic:", r)
+				}
+			}()
+			VerifLoadFile(f)
+			%s()
+			if len(VerifFailed) > 0 {
+				fmt.Println("VERIF-WITNESS-FAIL", k, VerifFailed)
+			} else {
+				fmt.Println("VERIF-WITNESS-OK", k)
+			}
+		}()
+	}
+}
+`, pkgName, list.String(), e.Func)
+	testLocal := filepath.Join(dir, "zz_verif_witness_test.go")
+	os.WriteFile(testLocal, []byte(test), 0o644)
+	repl[filepath.Join(RepoRoot, pkgDir, "zz_verif_witness_test.go")] = testLocal
+	ob, _ := json.Marshal(map[string]interface{}{"Replace": repl})
+	os.WriteFile(filepath.Join(dir, "overlay.json"), ob, 0o644)
+	cmd := exec.Command("go", "test", "-vet=off", "-count=1", "-overlay", filepath.Join(dir, "overlay.json"), "-run", "TestVerifWitness", "-v", "./"+pkgDir)
+	cmd.Dir = RepoRoot
+	cmd.Env = append(os.Environ(), "GOFLAGS=-mod=mod", "GOPROXY=off", "GOSUMDB=off", "GOTOOLCHAIN=local")
+	out, _ := runWithTimeout(cmd, 3*time.Minute)
+	txt := string(out)
+	okN := strings.Count(txt, "VERIF-WITNESS-OK")
+	failN := strings.Count(txt, "VERIF-WITNESS-FAIL")
+	ctx.Replays += okN
+	if failN > 0 || (okN == 0 && !strings.Contains(txt, "VERIF-WITNESS-SKIP")) {
+		os.WriteFile(filepath.Join(dir, "native_output.txt"), out, 0o644)
+		fmt.Printf("ENCODER-DISAGREEMENT %s: %d of %d witness inputs of %s behave differently natively (%s)\n", ctx.Check.ID, failN, len(files), e.Func, dir)
+	} else {
+		os.RemoveAll(dir)
 	}
 }
 
